@@ -18,8 +18,10 @@ import seqcheck
 
 SPEC = {
     "prop": "C01",
-    "lean_targets": ["InfernoVerif.Props.C01"],
-    "prop_files": ["InfernoVerif/Props/C01.lean"],
+    "lean_targets": ["InfernoVerif.Props.C01", "InfernoVerif.Props.C13Glue", "InfernoVerif.Gen.Dispatch"],
+    "translate": ["Infra"],
+    "driver_targets": ["InfernoVerif.Model.RingOps", "InfernoVerif.Drv.Proto", "InfernoVerif.Gen.Dispatch"],
+    "prop_files": ["InfernoVerif/Props/C01.lean", "InfernoVerif/Props/C13Glue.lean"],
     "lemma_files": ["InfernoVerif/Lemmas/Ring.lean"],
     "model_files": ["InfernoVerif/Model/Ring.lean", "InfernoVerif/Model/RingOps.lean"],
     "driver": "drivers/C01.lean",
@@ -335,6 +337,8 @@ def key_of(case, d):
 
 def explore(ctx) -> Exploration:
     ex = Exploration()
+    import transval
+    transval.validate(ctx, SPEC["translate"], ex, per_fn=60)   # generated pointer / size arithmetic vs the Python originals
     rng = ctx.rng
     thorough = ctx.tier == "thorough" or ctx.intensify
     cases = corpus_cases()
